@@ -634,10 +634,16 @@ def blockWF (h : Hdr) (bs : Nat) : Cmd → Prop
   | .qlpc _ coefs res => coefs.length ≤ h.maxnlpc ∧ res.length = bs ∧ h.nwrap ≤ bs
   | _ => True
 
+theorem finishBlock_bs_chan (h : Hdr) (convert : Bool) (st : St) (off buf1 : List Int) :
+    (finishBlock h convert st off buf1).bs = st.bs ∧
+      (finishBlock h convert st off buf1).chan = (st.chan + 1) % h.nchan := by
+  unfold finishBlock
+  split <;> exact ⟨rfl, rfl⟩
+
 theorem run_blockCmd {h : Hdr} {convert : Bool} {st : St} {ss : SSt} (hrel : Rel h st ss) (c : Cmd)
     (hb : isBlock c = true) (hwf : blockWF h st.bs c) (r : List Bool) :
     ∃ st', (blockCmd h convert (blockCode c) st).run uvarGet (blockBody c ++ r) = .ok (st', r) ∧
-      Rel h st' (semCmd h convert ss c) := by
+      Rel h st' (semCmd h convert ss c) ∧ st'.bs = st.bs ∧ st'.chan = (st.chan + 1) % h.nchan := by
   have hc := hrel.chans st.chan hrel.chanlt
   have hcoff := coffset_rel hc st.shift
   have hhist := hist_of_buf hc.hist
@@ -653,7 +659,7 @@ theorem run_blockCmd {h : Hdr} {convert : Bool} {st : St} {ss : SSt} (hrel : Rel
       apply run_blockCmd_nz _ _ _ _ _ (diffCode_ne_zero k)
       rw [← hwf]
       exact run_decodeBlock_diff _ _ _ _ _ _ _
-    refine ⟨_, hrun, ?_⟩
+    refine ⟨_, hrun, ?_, finishBlock_bs_chan _ _ _ _ _⟩
     simp only [semCmd]
     apply finish_rel hrel
     rw [hhist, hcoff, ← hwf]
@@ -667,7 +673,8 @@ theorem run_blockCmd {h : Hdr} {convert : Bool} {st : St} {ss : SSt} (hrel : Rel
       (uvarPut LPCQSIZE coefs.length ++ coefs.flatMap (varPut LPCQUANT) ++ res.flatMap (varPut resn)) r _
       (by decide) (hl ▸ run_decodeBlock_qlpc h resn (coffset h st.shift (st.chans.getD st.chan default).off)
         coefs res (st.chans.getD st.chan default).buf r hn)
-    refine ⟨_, by simpa only [blockCode, blockBody, List.append_assoc] using hrun, ?_⟩
+    refine ⟨_, by simpa only [blockCode, blockBody, List.append_assoc] using hrun, ?_,
+      finishBlock_bs_chan _ _ _ _ _⟩
     simp only [semCmd]
     apply finish_rel hrel
     rw [hhist, hcoff, ← hl]
@@ -676,7 +683,8 @@ theorem run_blockCmd {h : Hdr} {convert : Bool} {st : St} {ss : SSt} (hrel : Rel
       (Nat.le_trans hn (nwrap_ge h).2) (by omega)
     simpa [semHist, ← hrel.chan, ← hrel.shift] using this
   | zero =>
-    refine ⟨_, by simpa only [blockCode, blockBody, List.nil_append] using run_blockCmd_zero r, ?_⟩
+    refine ⟨_, by simpa only [blockCode, blockBody, List.nil_append] using run_blockCmd_zero r, ?_,
+      finishBlock_bs_chan _ _ _ _ _⟩
     simp only [semCmd]
     apply finish_rel hrel
     have := blockPost_zero h.nwrap st.bs (st.chans.getD st.chan default).buf
@@ -684,5 +692,89 @@ theorem run_blockCmd {h : Hdr} {convert : Bool} {st : St} {ss : SSt} (hrel : Rel
     simpa [semHist, ← hrel.chan, ← hrel.bs] using this
   | blocksize n => simp [isBlock] at hb
   | bitshift n => simp [isBlock] at hb
+
+/-! ## the command loop -/
+
+theorem encodeCmd_block (c : Cmd) (hb : isBlock c = true) :
+    encodeCmd c = uvarPut FNSIZE (blockCode c) ++ blockBody c := by
+  cases c <;> simp_all [isBlock, encodeCmd, blockCode, blockBody]
+
+theorem blockCode_mem (c : Cmd) : BLOCK_CMDS.contains (blockCode c) = true ∧ blockCode c ≠ FN_QUIT := by
+  cases c with
+  | diff k _ _ =>
+    simp only [blockCode, diffCode]
+    split <;> exact ⟨by decide, by decide⟩
+  | _ => simp only [blockCode]; exact ⟨by decide, by decide⟩
+
+theorem run_loop {h : Hdr} {convert : Bool} (r : List Bool) (cmds : List Cmd) :
+    ∀ (fuel : Nat) (st : St) (ss : SSt), Rel h st ss → WFcmds h st.bs st.chan cmds → cmds.length < fuel →
+      (loop h convert fuel st).run uvarGet (cmds.flatMap encodeCmd ++ (uvarPut FNSIZE FN_QUIT ++ r))
+        = .ok ((cmds.foldl (semCmd h convert) ss).out, r) := by
+  induction cmds with
+  | nil =>
+    intro fuel st ss hrel _ hf
+    obtain ⟨f, rfl⟩ : ∃ f, fuel = f + 1 := ⟨fuel - 1, by simp at hf; omega⟩
+    simp only [List.flatMap_nil, List.nil_append, loop, List.foldl_nil]
+    rw [Prog.run_bind_ok uvarGet (run_uvar_put _ _ _)]
+    simp [hrel.out]
+  | cons c cs ih =>
+    intro fuel st ss hrel hwf hf
+    obtain ⟨f, rfl⟩ : ∃ f, fuel = f + 1 := ⟨fuel - 1, by simp at hf; omega⟩
+    have hf' : cs.length < f := by simp at hf; omega
+    simp only [List.flatMap_cons, List.foldl_cons, List.append_assoc]
+    by_cases hb : isBlock c = true
+    · -- a block command
+      have hwf' : blockWF h st.bs c ∧ WFcmds h st.bs ((st.chan + 1) % h.nchan) cs := by
+        cases c with
+        | diff k resn res => exact ⟨hwf.1, hwf.2⟩
+        | qlpc resn coefs res => exact ⟨⟨hwf.1, hwf.2.1, hwf.2.2.1⟩, hwf.2.2.2⟩
+        | zero => exact ⟨trivial, hwf⟩
+        | blocksize n => simp [isBlock] at hb
+        | bitshift n => simp [isBlock] at hb
+      obtain ⟨st', hrun, hrel', hbs', hchan'⟩ :=
+        run_blockCmd (convert := convert) hrel c hb hwf'.1
+          (cs.flatMap encodeCmd ++ (uvarPut FNSIZE FN_QUIT ++ r))
+      have hcode := blockCode_mem c
+      rw [encodeCmd_block c hb, List.append_assoc]
+      unfold loop
+      rw [Prog.run_bind_ok uvarGet (run_uvar_put _ _ _)]
+      simp only [hcode.2, if_false, hcode.1, if_true]
+      rw [Prog.run_bind_ok uvarGet hrun]
+      apply ih f st' _ hrel' _ hf'
+      rw [hbs', hchan']
+      exact hwf'.2
+    · cases c with
+      | diff k resn res => simp [isBlock] at hb
+      | qlpc resn coefs res => simp [isBlock] at hb
+      | zero => simp [isBlock] at hb
+      | blocksize n =>
+        obtain ⟨hch, hn1, hn2, hrest⟩ := hwf
+        simp only [encodeCmd, List.append_assoc]
+        unfold loop
+        rw [Prog.run_bind_ok uvarGet (run_uvar_put _ _ _)]
+        have e1 : ¬ (FN_BLOCKSIZE = FN_QUIT) := by decide
+        have e2 : BLOCK_CMDS.contains FN_BLOCKSIZE = false := by decide
+        simp only [e1, e2, if_false, Bool.false_eq_true, if_true]
+        rw [Prog.run_bind_ok uvarGet (run_ulong_put _ _)]
+        have e3 : ¬ (n = 0 ∨ n > h.bs0) := by omega
+        simp only [e3, if_false]
+        apply ih f { st with bs := n } _ _ hrest hf'
+        simp only [semCmd]
+        have hfr : ss.frame = [] := by rw [hrel.frame, hch]; rfl
+        exact ⟨rfl, hrel.shift, hrel.chan, hrel.out, hrel.chanlt, hn2, hrel.len, hrel.slen, hrel.chans,
+          by simp [hfr, hch]⟩
+      | bitshift n =>
+        simp only [encodeCmd, List.append_assoc]
+        unfold loop
+        rw [Prog.run_bind_ok uvarGet (run_uvar_put _ _ _)]
+        have e1 : ¬ (FN_BITSHIFT = FN_QUIT) := by decide
+        have e2 : BLOCK_CMDS.contains FN_BITSHIFT = false := by decide
+        have e3 : ¬ (FN_BITSHIFT = FN_BLOCKSIZE) := by decide
+        simp only [e1, e2, e3, if_false, Bool.false_eq_true, if_true]
+        rw [Prog.run_bind_ok uvarGet (run_uvar_put _ _ _)]
+        apply ih f { st with shift := n } _ _ hwf hf'
+        simp only [semCmd]
+        exact ⟨hrel.bs, rfl, hrel.chan, hrel.out, hrel.chanlt, hrel.bsle, hrel.len, hrel.slen, hrel.chans,
+          hrel.frame⟩
 
 end PdsVerif.Model.Shorten
